@@ -1,12 +1,15 @@
 /-
-C15 helper lemmas, part 5: the `3 n` buffer of `intersect_halfplanes` suffices in general position.
+C15 helper lemmas, part 5: in general position `intersect_halfplanes` writes at most `2 n` rows.
 
 `GeneralPosition hps`: no intersection point of a boundary line `i` with a later line `a` lies
 within the `EPSILON` band of a third later line `b` (in the un-normalised measure
 `cross2d(dir_b, p - q_b)` the code itself uses).  Then for every first index `i` at most two
 partners `j > i` give a valid point (the three validity tests put each of three crossing
-parameters on the same side of the other two — impossible on a line), hence at most `2 n < 3 n`
-rows are written and the assertion holds.
+parameters on the same side of the other two — impossible on a line), hence at most `2 n` rows are
+written.  Before the repair this was the condition under which the `3 n` row buffer sufficed
+(`intersectHalfplanes_before_fix_ok_general_position`); for the code as it is now
+(`n (n-1) / 2 + 1` rows, never too small: `intersectHalfplanes_total`) it is a sharper bound on the
+number of returned points (`intersectHalfplanes_general_position_count`).
 -/
 import D3.Proofs.HydroKernel
 
@@ -209,26 +212,43 @@ theorem inner_count_le_two (hps : List (HP ℝ)) (gp : GeneralPosition hps) (i :
   simp only [List.mem_filter, Bool.and_eq_true, decide_eq_true_eq] at ha hb hc
   exact three_valid_false hps gp i a b c ha.2.1 hb.2.1 hc.2.1 hab hac hbc ha.2.2 hb.2.2 hc.2.2
 
-/-- **buffer suffices in general position**: at most `2 n` rows are written -/
-theorem intersectHalfplanes_ok_general_position (hps : List (HP ℝ)) (h1 : 1 ≤ hps.length)
-    (gp : GeneralPosition hps) :
-    ∃ res, intersectHalfplanes hps = .ok res ∧ res.length ≤ 2 * hps.length := by
+/-- in general position at most `2 n` rows are written; any buffer with more rows than
+`min (2 n) (number of pairs)` suffices -/
+theorem intersectHalfplanesWith_general_position (rows : Nat → Nat) (hps : List (HP ℝ))
+    (gp : GeneralPosition hps)
+    (hrows : min (2 * hps.length) (pairIdx hps.length).length < rows hps.length) :
+    ∃ res, intersectHalfplanesWith rows hps = .ok res ∧ res.length ≤ 2 * hps.length := by
   have hcount : ((pairIdx hps.length).filter (pairValid hps)).length ≤ 2 * hps.length := by
     rw [pairIdx_eq]
     have := length_filter_flatMap_le (innerIdx hps.length) (pairValid hps) 2
       (List.range hps.length) (fun i _ => inner_count_le_two hps gp i)
     simpa using this
-  obtain ⟨res, hres, hl⟩ := foldl_count hps (bufferRows hps.length) (pairIdx hps.length) []
+  have hcount2 : ((pairIdx hps.length).filter (pairValid hps)).length ≤ (pairIdx hps.length).length :=
+    List.length_filter_le _ _
+  obtain ⟨res, hres, hl⟩ := foldl_count hps (rows hps.length) (pairIdx hps.length) []
     (fun ij hij => by
       have := mem_pairIdx hij
       exact ⟨by omega, this.2⟩)
-    (by simp only [bufferRows, List.length_nil]; omega)
+    (by simp only [List.length_nil]; omega)
   simp only [List.length_nil, Nat.zero_add] at hl
   refine ⟨res, ?_, by omega⟩
-  unfold intersectHalfplanes
+  unfold intersectHalfplanesWith
   simp only [hres]
-  have : res.length < bufferRows hps.length := by simp only [bufferRows]; omega
+  have : res.length < rows hps.length := by omega
   simp [bind, Except.bind, this]
+
+/-- **before the repair, the `3 n` row buffer sufficed in general position** -/
+theorem intersectHalfplanes_before_fix_ok_general_position (hps : List (HP ℝ)) (h1 : 1 ≤ hps.length)
+    (gp : GeneralPosition hps) :
+    ∃ res, intersectHalfplanes_asIs_before_fix hps = .ok res ∧ res.length ≤ 2 * hps.length :=
+  intersectHalfplanesWith_general_position bufferRows_asIs_before_fix hps gp
+    (by simp only [bufferRows_asIs_before_fix]; omega)
+
+/-- the code as it is now, in general position: at most `2 n` points are returned -/
+theorem intersectHalfplanes_general_position_count (hps : List (HP ℝ)) (gp : GeneralPosition hps) :
+    ∃ res, intersectHalfplanes hps = .ok res ∧ res.length ≤ 2 * hps.length :=
+  intersectHalfplanesWith_general_position bufferRows hps gp
+    (by rw [pairIdx_length]; simp only [bufferRows]; omega)
 
 /-! ### a concrete list in general position (non-vacuity) -/
 
